@@ -161,7 +161,13 @@ func c12TypeNames(sc schemaSpec) []string {
 
 func c12RandOp(r *rng, sc schemaSpec) c12Op {
 	names := c12TypeNames(sc)
-	switch r.intn(12) {
+	switch r.intn(14) {
+	case 12:
+		// a collection of one of the schema's types, built from what the schema hands out
+		return c12Op{kind: "collection", tn: pick(r, names), arg: strconv.Itoa(r.intn(1000))}
+	case 13:
+		// resources of two of the schema's types added to a collection before it is given a type
+		return c12Op{kind: "collection-untyped", tn: pick(r, names), arg: pick(r, names)}
 	case 0, 1:
 		return c12Op{kind: "url", arg: randRawURL(r, r.chance(1, 8))}
 	case 2, 3:
@@ -276,6 +282,35 @@ func c12Run(s *jsonapi.Schema, sc schemaSpec, o c12Op) (out string) {
 			return "err " + err.Error()
 		}
 		return string(b)
+	case "collection":
+		typ := s.GetType(o.tn)
+		col := &jsonapi.SoftCollection{}
+		col.SetType(&typ)
+		for i := 0; i < 3; i++ {
+			res := typ.New()
+			fill(res, o.tn, o.arg+strconv.Itoa(i))
+			col.Add(res)
+		}
+		var it []string
+		for i := 0; i < col.Len(); i++ {
+			it = append(it, oFullResource(col.At(i)))
+		}
+		return strings.Join(it, " ")
+	case "collection-untyped":
+		col := &jsonapi.SoftCollection{}
+		var it []string
+		for i, tn := range []string{o.tn, o.arg} {
+			typ := s.GetType(tn)
+			res := typ.New()
+			fill(res, tn, strconv.Itoa(i))
+			col.Add(res)
+		}
+		typ := s.GetType(o.tn)
+		col.SetType(&typ)
+		for i := 0; i < col.Len(); i++ {
+			it = append(it, oFullResource(col.At(i)))
+		}
+		return strings.Join(it, " ")
 	case "has":
 		return fmt.Sprint(s.HasType(o.arg))
 	case "get":
